@@ -127,6 +127,11 @@ func checkC07(c *Check) {
 	spacingRule(c)
 	// Rule 2b: the audit pipeline's callback hands every record on
 	auditRecordHandedOn(c)
+	// Rule 2c: a login parsed from a record that came through the pipe is
+	// forwarded like one parsed from a record handed over directly: the
+	// hand-over gives up only when the worker is shut down (rules of C05)
+	nfw := importRules(c, "C05", checkC05, "forwarded-as-direct: ", "handoff-only-cancellation-gives-up", "handoff-always-after-write")
+	c.Floor("imported forwarded-as-direct obligations", 6, nfw)
 	// Rule 3: the record reaching the callback is the record as written
 	// (framing loop of the pipe ingester; rules of C12)
 	nr := importRules(c, "C12", checkC12, "record-as-written: ", "once-verbatim-in-order", "framing-primitive", "reader-outlives-loop")
@@ -170,6 +175,27 @@ func spacingRule(c *Check) {
 		})
 	}
 	c.Floor("stores building SshdLogEntry in ingesters/syslog", 2, len(sites))
+	// nothing else in the daemon rewrites the entry on its way to the
+	// processor (a decorator, a tracing wrapper, the wiring): the fields of
+	// an SshdLogEntry are written only where the ingester parses the record
+	for _, fn := range p.AllRepoFuncs() {
+		if FuncPkgPath(fn) == ModPath+"/ingesters/syslog" || !p.InDaemon(fn) {
+			continue
+		}
+		allInstrs(fn, func(in ssa.Instruction) {
+			st, ok := in.(*ssa.Store)
+			if !ok {
+				return
+			}
+			fa, ok := st.Addr.(*ssa.FieldAddr)
+			if !ok {
+				return
+			}
+			if n := namedOf(fa.X.Type()); n != nil && n.Obj().Name() == "SshdLogEntry" && n.Obj().Pkg() != nil && strings.HasSuffix(n.Obj().Pkg().Path(), "/processors/sshd") {
+				c.Bad("spacing-preserved", "SshdLogEntry."+fieldName(fa.X.Type(), fa.Field)+" rewritten in "+fn.Name(), p.InstrPos(st), "the parsed entry is modified on its way from the ingester to the sshd processor ("+trimOrg(NewResolver(p).Of(st.Val).String())+"): the message processed is no longer the message in the record (cut, masked or normalised), so fields extracted from it differ from the record's")
+			}
+		})
+	}
 	seps := map[string]bool{}
 	for _, st := range sites {
 		fa := st.Addr.(*ssa.FieldAddr)
